@@ -45,6 +45,8 @@ def run(ctx):
     res.rule("C15-R5", "one packet per bus-status entry: the entry loop pushes one payload per iteration and advances by the 12-byte entry size from offset 12")
     res.rule("C15-R7", "the converters of the supported kinds (CAN, CAN-FD, LIN, capture-module status, bus status) return a packet on every path: "
                         "unsupported or malformed input is rejected before conversion, never inside it")
+    res.rule("C15-R8", "conversion is a function of the frame's bytes: no function reachable from TECMP::Decoder::Decode references a mutable static or "
+                        "thread-local object (a stream or buffer kept between calls carries text of an earlier frame into the next packet)")
     res.not_decided += ["value equality of converted fields for every TECMP frame",
                         "R6 (malformed input yields no packet, not a crash) is C02's bounds/null obligations restricted to tecmp_*.cpp and is reported by C02"]
     # ---- R1
@@ -214,6 +216,22 @@ def run(ctx):
                         ok = start == 12 and stride == 12 and L == 12 and exact
                         why = "entries at %d + %d*k, %d bytes each, loop continues while %d + %d*%s <= size" % (start, stride, L, bf[0], bf[1], v.split(":")[-1])
     res.check(ok, "C15-R5", "bus-status:entry-loop", gi.loc, "one payload per 12-byte entry, starting at offset 12", "bus-status entry loop: " + why)
+    # ---- R8 no state between conversions
+    tdec = fb.fn(TD + "Decode")
+    reach = fb.reachable_from([tdec])
+    if len(reach) < 40:
+        raise Broken("only %d functions reachable from TECMP::Decoder::Decode" % len(reach))
+    bad = []
+    for f in reach.values():
+        for n in f.nodes():
+            if n.get("k") in ("ref", "member") and n.get("dk") in ("global", "staticlocal", "staticmember") and not n.get("vconst"):
+                bad.append((f, n))
+            if n.get("k") == "decl" and any(v.get("static") and not v["t"].get("const") for v in n.get("vars", [])):
+                bad.append((f, n))
+    res.check(not bad, "C15-R8", "tecmp-reachable:statics", bad[0][1].get("loc") if bad else tdec.loc,
+              "%d functions reachable from TECMP::Decoder::Decode reference no mutable static or thread-local object" % len(reach),
+              "%s keeps state between conversions in a static/thread-local object (%s): a converted packet can contain data of an earlier frame" %
+              (bad[0][0].name if bad else "", (bad[0][1].get("decl") or bad[0][1].get("name") or "local static") if bad else ""))
     res.floor("C15-R2", 15)
     res.floor("C15-R3", 20)
     res.floor("C15-R4", 100)
